@@ -232,7 +232,8 @@ def _txinfo(ctx, R, T):
     # predicate: send_idx + recv_message_size + data_len < (or <=) _maxdata
     ca = cls.methods.get("can_add_to_send_buffer")
     if ca is None:
-        raise AnalysisError("BUF-send", "can_add_to_send_buffer not found")
+        R.ok("BUF-send", cls.qualname + "|predicate-inline", "no predicate method: the room test is checked where the record is stored", loc, trivial=True)
+        return
     selft = ("p", "self:" + cls.qualname)
     rt = T.inline_return(ca, {ca.params[0]: ("p", "SELF"), ca.params[1]: ("p", "N")}, 1)
     ok = rt[0] == "cmp" and len(rt) == 4 and rt[2] in (("c", "Lt"), ("c", "LtE")) and rt[3] == ("attr", ("p", "SELF"), "_maxdata")
@@ -314,17 +315,48 @@ def _send_buffer(ctx, R, roles, T):
     # room-or-flush dominates the store
     flushes = [n for n, _c in callee_nodes(ctx, f, fl)]
     ok_room = False
-    tests = [tn for tn in g.live_nodes() if tn.kind == "test" and any(call_attr(c) == "can_add_to_send_buffer" for c in node_calls(tn))]
-    if len(tests) == 1 and g.dominates(tests, sn):
-        tn = tests[0]
-        c = [c for c in node_calls(tn) if call_attr(c) == "can_add_to_send_buffer"][0]
-        argt = T.term(f, tn, c.args[0]) if len(c.args) == 1 else None
-        neg = isinstance(unawait(tn.ast.test), ast.UnaryOp)
-        noroom = "true" if neg else "false"
+    # the room test: `send_idx + record header size + len(data) < (or <=) maxdata`, written in place or through the predicate method
+    from ..terms import linear
+    infot = ("p", info)
+    want = linear(("op", "+", ("op", "+", T.term(f, sn, ast.Attribute(value=ast.Name(id=info, ctx=ast.Load()), attr="send_idx", ctx=ast.Load())) if False else ("attr", infot, "send_idx"),
+                                 ("attr", infot, "recv_message_size")), ("LEN", data_t))) if data_t is not None else None
+
+    def unver(t):
+        return t[1] if t[0] == "ver" else t
+
+    def room_edge(tn):
+        """label of the edge of tn on which there is room, if tn is the room test"""
+        t = T.term(f, tn, tn.ast.test)
+        pol = True
+        while t[0] == "un" and t[1] == "not":
+            t, pol = t[2], not pol
+        if not (t[0] == "cmp" and len(t) == 4):
+            return None
+        a, op, b = unver(t[1]), t[2][1], unver(t[3])
+        lim = ("attr", infot, "_maxdata")
+        if op in ("Lt", "LtE") and b == lim:
+            summ = a
+        elif op in ("Gt", "GtE") and a == lim:
+            summ = b
+        elif op in ("GtE", "Gt") and b == lim:
+            summ, pol = a, not pol          # sum >= limit: no room
+        elif op in ("LtE", "Lt") and a == lim:
+            summ, pol = b, not pol
+        else:
+            return None
+        lf = linear(summ)
+        lf = ({unver(k): v for k, v in lf[0].items()}, lf[1])
+        if want is None or lf != want:
+            return None
+        return "true" if pol else "false"
+    tests = [(tn, room_edge(tn)) for tn in g.live_nodes() if tn.kind == "test"]
+    tests = [(tn, lab) for tn, lab in tests if lab is not None]
+    if len(tests) == 1 and g.dominates([tests[0][0]], sn):
+        tn, lab = tests[0]
+        noroom = "false" if lab == "true" else "true"
         starts = [d for d, l in g.succ[tn] if l == noroom]
         r = g.reach(starts, avoid=flushes, exc=False, include_start=True)
-        ok_room = argt == ("LEN", data_t) and sn not in r and bool(flushes) and varkey(unawait(c.func.value)) == info
-        # no modification of idx / data between the test and the store other than the flush
+        ok_room = sn not in r and bool(flushes)
     R.check(ok_room, "BUF-send", q + "|room-or-flush", "before a record is stored there is room for it, or the buffer is flushed first",
             "the record can be stored without room having been established (predicate on len(data), else flush): the WRTE payload can exceed maxdata / overrun the buffer", f.loc(sn.ast))
     # record header length (8) <= every record size used in the predicate
